@@ -95,7 +95,7 @@ impl RefDecoder {
         if continuing {
             // a continuation chunk: type 3 (its extended field, if any, is ignored), or a repeat of the same full header
             if fmt == 3 { ts = st.ts; delta = st.delta; }
-            else if fmt == 0 && value == st.ts && len == st.len && typ == st.typ && msid == st.msid { ts = st.ts; delta = st.delta; }
+            else if fmt == 0 && value == st.ts && len == st.len && typ == st.typ && msid == st.msid { ts = st.ts; delta = value; }
             else { return Err(Res::Err(format!("type {} header with different fields in the middle of a message on csid {}", fmt, csid))); }
         } else {
             match fmt {
